@@ -90,13 +90,13 @@ func solveOne(o *Obligation, cfg solveCfg, idx int) {
 	}
 	defer os.Remove(file)
 	t0 := time.Now()
-	defer func() { o.TimeS = time.Since(t0).Seconds() }()
+	prev := o.TimeS
+	defer func() { o.TimeS = prev + time.Since(t0).Seconds() }()
 
-	// stage 1: z3-new alone, short timeout
-	st, out, _ := runSolver(context.Background(), solvers[0], file, cfg.firstS, cfg.seed)
-	if (st == "sat" || st == "unsat") && !cfg.twoSolvers {
-		o.Status, o.Solver, o.Output = st, solvers[0].name, out
-		return
+	// stage 1 (two-solver mode only; otherwise done by solveFirst): z3-new alone, short timeout
+	st, out := "pending", ""
+	if cfg.twoSolvers {
+		st, out, _ = runSolver(context.Background(), solvers[0], file, cfg.firstS, cfg.seed)
 	}
 	firstStatus, firstOut := st, out
 	// stage 2: race all
@@ -164,20 +164,68 @@ func solveOne(o *Obligation, cfg solveCfg, idx int) {
 }
 
 func solveAll(obls []*Obligation, cfg solveCfg) {
-	var wg sync.WaitGroup
-	ch := make(chan int)
-	for w := 0; w < cfg.workers; w++ {
-		wg.Add(1)
-		go func() {
-			defer wg.Done()
-			for i := range ch {
-				solveOne(obls[i], cfg, i)
-			}
-		}()
+	// pass 1: one solver (z3-new) with a short timeout on every core; pass 2: the rest,
+	// three solvers racing per obligation, so fewer obligations at a time
+	run := func(idxs []int, workers int, f func(i int)) {
+		var wg sync.WaitGroup
+		ch := make(chan int)
+		for w := 0; w < workers; w++ {
+			wg.Add(1)
+			go func() {
+				defer wg.Done()
+				for i := range ch {
+					f(i)
+				}
+			}()
+		}
+		for _, i := range idxs {
+			ch <- i
+		}
+		close(ch)
+		wg.Wait()
 	}
+	all := make([]int, len(obls))
 	for i := range obls {
-		ch <- i
+		all[i] = i
 	}
-	close(ch)
-	wg.Wait()
+	if cfg.twoSolvers {
+		w := cfg.workers / 3
+		if w < 1 {
+			w = 1
+		}
+		run(all, w, func(i int) { solveOne(obls[i], cfg, i) })
+		return
+	}
+	run(all, cfg.workers, func(i int) { solveFirst(obls[i], cfg, i) })
+	var rest []int
+	for i, o := range obls {
+		if o.Status != "sat" && o.Status != "unsat" {
+			rest = append(rest, i)
+		}
+	}
+	w := cfg.workers / 3
+	if w < 1 {
+		w = 1
+	}
+	run(rest, w, func(i int) { solveOne(obls[i], cfg, i) })
+}
+
+// solveFirst: a single z3-new attempt with the short timeout.
+func solveFirst(o *Obligation, cfg solveCfg, idx int) {
+	q := o.Query(cfg.models)
+	o.SMTSize = len(q)
+	file := filepath.Join(cfg.scratch, fmt.Sprintf("p%05d.smt2", idx))
+	if err := os.WriteFile(file, []byte(q), 0o644); err != nil {
+		o.Status, o.Output = "error", err.Error()
+		return
+	}
+	defer os.Remove(file)
+	t0 := time.Now()
+	st, out, _ := runSolver(context.Background(), solvers[0], file, cfg.firstS, cfg.seed)
+	o.TimeS = time.Since(t0).Seconds()
+	if st == "sat" || st == "unsat" {
+		o.Status, o.Solver, o.Output = st, solvers[0].name, out
+	} else {
+		o.Status = "pending"
+	}
 }
